@@ -25,7 +25,11 @@ LEVEL_TEXT = (
     "must raise at construction or first use (a 2-step fixed-grid solve / one loss evaluation / one estimator call); the uncorrupted twin "
     "must work (otherwise the harness, not the library, is at fault). Unsuitable pairings must warn and name the remedy. The (entry point, "
     "corruption, factorisation) product is finite and is enumerated in full on every run (label pinned:sweep; the thorough tier also "
-    "enumerates the constructor variant and sub-variant); the random cases on top vary sizes and variants."
+    "enumerates the constructor variant and sub-variant); the random cases on top vary sizes and variants. Generic-shape fuzzing: the "
+    "array-valued fields (output_scale, transition(output_scale=), one is_exact leaf, one tcoeffs_std leaf, both loss noise levels) receive "
+    "arbitrary shapes of rank 0..3; the acceptance model decides which shapes are valid (must work) - every other shape must raise; all shapes "
+    "that broadcasting / raveling / reshaping could swallow (size one, unit axes inserted, an axis replaced by one, transposed, flattened, an "
+    "axis off by one) are enumerated on every run."
 )
 LEVEL_NOTE = "The acceptance model is transcribed from the library's own checks and messages (e.g. dense/blockdiag exactness leaves may be () or the leaf shape; isotropic std leaves must be scalars), so documented-acceptable values are never counted as corruptions."
 RULE = (
